@@ -921,6 +921,26 @@ func (rn *runner) judgeEnd(p *program, finished bool) {
 }
 
 // randomScenario: generated program, 2..16 threads.
+// stragglers returns the stack of a goroutine that is inside the ECAL
+// interpreter or a pool worker loop right now ("" if there is none). Called
+// between scenarios, when no thread of the harness is supposed to exist.
+func stragglers() string {
+	self := sched.GoID()
+	for _, g := range c11kit.Dump() {
+		if g.ID == self {
+			continue
+		}
+		if g.Has("github.com/krotik/ecal/interpreter.") || g.Has("pool.(*ThreadPoolWorker).run") {
+			fr := g.Frames
+			if len(fr) > 12 {
+				fr = fr[:12]
+			}
+			return fmt.Sprintf("goroutine %d [%s]: %s", g.ID, g.State, strings.Join(fr, " <- "))
+		}
+	}
+	return ""
+}
+
 func randomScenario(c *core.Ctx, stream string, idx int) {
 	r := c.Rng(stream, idx)
 	workers := r.Range(2, 8)
@@ -948,6 +968,15 @@ func randomScenario(c *core.Ctx, stream string, idx int) {
 	c.Begin(0, stream, idx, p.src)
 	defer c.End(0)
 	m := newMon(r.U64())
+	// the monitor functions are process-wide: a thread of an EARLIER scenario
+	// that is still executing interpreter code would report into this
+	// scenario's tables (under a thread id that a thread of this scenario has,
+	// too). Such a process judges no further scenario.
+	if st := stragglers(); st != "" {
+		c.Event("scenarios.not-run(stragglers-of-an-earlier-scenario)", 1)
+		c.Inconclusive("not run: a goroutine of an earlier scenario is still inside the interpreter", stream, idx, map[string]interface{}{"goroutine": st})
+		return
+	}
 	pre := goroutineSet()
 	m.pre = pre
 	env, err := c11kit.NewEnv("c12", p.src, workers, false)
